@@ -345,6 +345,9 @@ UNITS += [
 ]
 
 KANI = []
+# the ordering kernels of copy / merge / rewrite / repair live in C03's spec
+SATELLITES = [("C03", ["ModifierChange", "repair_snapshots", "copy_tail", "copy_blobs_reports_failed_writes", "rewrite_save_then_forget", "merge_trees_tail", "merge_snapshots_tail", "repair_index_order"])]
+
 META = {"not_covered": [
     "merge: Tree::from_backend of the inputs and the fill phase of the heap (iterator adapters), which conflicting entry wins beyond 'one of the group' (the caller's cmp closure), the recursion into sub-directories (stub), BinaryHeap semantics (assumed); the heap order, the merge loop and merge_nodes ARE units",
     "what the visitors answer for trees as a whole (pre_process_tree: unreadable trees replaced by empty ones) -- in modify_tree the visitor is a stub with arbitrary answers",
